@@ -9,7 +9,7 @@
    must leave it unchanged.
 3. X (leaf): random scripts of create / use / re-assign on REAL GuppyObjects in a real
    TracingState vs the proved leaf model (verdict, dictionary contents, used flags).
-4. X (tree): generated @guppy.comptime bodies (qubits, arrays, tuples, structs; owned /
+4. X (tree; the tree model also has theorems since round 2, see Props.v): generated @guppy.comptime bodies (qubits, arrays, tuples, structs; owned /
    borrowed / local; use, reuse, leak, return, mutate) compiled with /repo vs the executable
    tree model (verdict class); accepted programs are also validated with check_hugr.
    This is the ONLY assurance for nested-container tracking.
@@ -225,7 +225,8 @@ def run(ctx):
          "props/C22/tr_tracing.py: reading of the statement skeletons of GuppyObject.__init__/_use_wire, update_packed_value (GuppyObject case), trace_function, GuppyStructObject.__setattr__, unpack_guppy_object, class frozenlist",
          "props/C22/impl_listmut.py: list's in-place mutators = callable attributes of CPython's list for which one of ~57 probe calls changes a sample list",
          "tools/repo_shim.py (compat shim), selene check_hugr for accepted programs",
-         "NOT PROVED: nested-container tracking (ModelTree.v: unpack / from_py / update_packed recursion, trace_call, trace_function) is only differentially validated against compile()"],
+         "ModelTree.v (nested tuples/lists/structs) is hand-written: that it matches unpack_guppy_object / guppy_object_from_py / update_packed_value / trace_call / trace_function is validated differentially against compile() only; the theorems about it (frozen at all levels, mutation rejected, refinement to the leaf layer) are proved",
+         "NOT PROVED: that update_packed_value resets EXACTLY the leaves of the re-assigned subtree (only: it is a sequence of LReassign/LCreate/LUse leaf steps)"],
         evaluations=len(scripts) + len(progs) + len(_probe["callables"]),
         distinct_nontrivial=nontrivial,
         rule="non-trivial program = non-empty body and at least one non-copyable parameter; programs are distinct by JSON hash",
